@@ -182,6 +182,10 @@ def shapes(tier):
     sh.append(('pp_put/pp_get over an old entry', big, [pp_ini(P1, 'q', 5)], [pp_put(P1, 'p'), pp_get(P1)]))
     sh.append(('pp_put/pp_put same key', big, [], [pp_put(P1, 'p'), pp_put(P1, 'q', 2)]))
     sh.append(('pp_put/pp_put under pressure', e['r'] + e['q'] - 1, [pp_ini(P2, 'p', 4)], [pp_put(P1, 'r'), pp_put(P2, 'q')]))
+    sh.append(('pp re-store that must evict its own old version', e['r'] + e['q'] - 10, [pp_ini(P1, 'r', 5)],
+               [pp_put(P1, 'q', 2), pp_get(P1)]))
+    sh.append(('pp re-store of the least recently used of two', e['r'] + e['q'] + e['p'] - 10,
+               [pp_ini(P1, 'p', 5), pp_ini(P2, 'r', 6)], [pp_put(P1, 'q'), pp_get(P1)]))
     sh.append(('pp_put/put', big, [], [pp_put(P1, 'p'), put(K1, 'A')]))
     sh.append(('pp_put/get: the result store opens while the nested put is in flight', big, [ini(K1, 'C', 5)],
                [pp_put(P1, 'p', 2), get(K1)]))
@@ -279,6 +283,29 @@ def gen_cases(rng, tier):
             (100000, [ini(K1, 'C', 5)], [put(K3, 'A'), get(K1), get(K3)])]:
         for p in prefixes(ths):
             out.append([cap, 0, init, ths, p, [K1]])
+    # lock-scope probes: the call stepped at position i is parked at its first utimensat / unlink of an entry file
+    # and the following m steps are attempted inside that window (they just wait if the call holds the cache lock,
+    # as every lookup and every eviction does on the unchanged tree: the model's steps are atomic)
+    probes = [
+        # a lookup found K2 in the index; a store of another key evicts K2 before the lookup has opened the file
+        (e['A'] + e['C'] - 1, [ini(K2, 'C', 5)], [put(K1, 'A'), get(K2)], [1, 0, 0, 0, 1], [0, b'utimes', 1]),
+        (e['A'] + e['C'] - 1, [ini(K2, 'C', 5)], [put(K1, 'A'), get(K2)], [1, 0, 0, 0, 1], [0, b'utimes', 3]),
+        (e['A'] + e['C'] - 1, [ini(K2, 'C', 5)], [put(K1, 'A', 2), get(K2)], [0, 1, 0, 0, 0, 1], [1, b'utimes', 2]),
+        (e['A'] + e['C'] - 1, [ini(K2, 'C', 5), ini(K3, 'E', 6)], [put(K1, 'A'), get(K2), get(K3)],
+         [1, 0, 2, 0, 0, 1, 2], [0, b'utimes', 1]),
+        (100000, [ini(K1, 'C', 5)], [put(K1, 'A'), get(K1)], [0, 0, 1, 0, 1], [2, b'utimes', 1]),
+        # a store evicts K2; another store of K2 completes before the evicted file has been unlinked
+        (e['A'] + e['C'] - 1, [ini(K2, 'C', 5)], [put(K1, 'A'), put(K2, 'E')], [0, 1, 1, 1, 0, 0], [0, b'unlink', 3]),
+        (e['A'] + e['C'] - 1, [ini(K2, 'C', 5)], [put(K1, 'A'), put(K2, 'E'), get(K2)], [0, 1, 1, 1, 2, 2, 0, 0],
+         [0, b'unlink', 5]),
+        (e['A'] + e['C'] - 1, [ini(K2, 'C', 5)], [put(K1, 'A'), get(K2)], [0, 1, 1, 0, 0], [0, b'unlink', 2]),
+        # commit-time eviction (the entry is larger than what was free when it was reserved)
+        (e['A'] + e['C'] - 1, [ini(K2, 'C', 5)], [put(K2, 'A'), put(K1, 'E'), get(K2)], [0, 0, 0, 1, 1, 1, 2, 2],
+         [0, b'unlink', 4]),
+    ]
+    for cap, init, ths, sched, pr in probes:
+        for cut in range(pr[0] + 1, len(sched) + 1):
+            out.append([cap, 0, init, ths, sched[:cut], [], pr])
     if tier == 'thorough':
         for name, cap, init, ths in three:
             alt = [list(t) for t in reversed(ths)]
@@ -501,6 +528,19 @@ def monitor(case, out):
             for k, sz in ps.items():
                 if [pp_path(k), sz] not in pi:
                     vs.append('%s: nested key %r is served but not indexed with its size' % (label, k))
+        # an indexed (and counted) entry is an entry that can be looked up: its file exists.  The result store's
+        # own keys always; the nested store's when no result-store request was made (after one, the result store
+        # has the nested entry files in its own index and may evict them under the nested store: S18)
+        if isinstance(mi, list) and isinstance(om, list) and len(om) == len(mkeys):
+            for k, o in zip(mkeys, om):
+                if any(e[0] == main_path(k) for e in mi) and not (isinstance(o, list) and o and o[0] == b'hit'):
+                    vs.append('%s: the result store indexes and counts key %r, but looking it up gives %r '
+                              '(an indexed entry without its file: a successful store was lost)' % (label, k, o))
+        if isinstance(pi, list) and not mkeys and isinstance(op, list) and len(op) == len(pkeys):
+            for k, o in zip(pkeys, op):
+                if any(e[0] == pp_path(k) for e in pi) and not (isinstance(o, list) and o and o[0] == b'hit'):
+                    vs.append('%s: the preprocessor-entry store indexes and counts key %r, but looking it up gives %r '
+                              '(an indexed entry without its file: a successful store was lost)' % (label, k, o))
 
     check_obs('before the crash', out[1:7], True)
     check_obs('after restart', out[7:13], False)
@@ -531,6 +571,8 @@ def nontrivial(case, out):
 
 def stats(case, out):
     ks = ['threads=%d' % len(case[3]), 'sched_len=%d' % len(case[4]), 'order=%d' % case[1]]
+    if len(case) > 6:
+        ks.append('lock_scope_probe=%s' % case[6][1].decode())
     if mounted(case):
         ks.append('shard_on_other_fs' + ('(skipped)' if out == [b'skipped'] else ''))
     try:
